@@ -123,6 +123,16 @@ def _res_flav(fa, fb, op):
     return 'dec'
 
 
+def _flav_hint(res, fa, fb, osym):
+    """A decimal-flavoured symbolic value times / over a concrete Fraction is modelled as a Fraction; in reality it is one
+    only when the value is no finite decimal.  Leave a hint for the choice of counterexample models (first occurrence on
+    a path): a value with a factor 3 in its denominator."""
+    if isinstance(res, SymFrac) and not osym and 'dec' in (fa, fb) and not getattr(E, '_flav_hinted', False):
+        E._flav_hinted = True
+        E.hint(z3.And(z3.IsInt(res.z * 3000), z3.Not(z3.IsInt(res.z * 1000))))
+    return res
+
+
 def _nonlinear_const(z):
     """If the path condition forces z to a constant, return that numeral."""
     if z3.is_rational_value(z) or z3.is_int_value(z):
@@ -159,13 +169,13 @@ class SymRat:
         if op == 'mul':
             if osym:
                 a, b = E.linearise(a, b)
-            return _mk(a * b, _res_flav(fa, fb, op))
+            return _flav_hint(_mk(a * b, _res_flav(fa, fb, op)), fa, fb, osym)
         if op == 'div':
             if E.branch(b == 0):
                 raise ZeroDivisionError("division by zero (symbolic)")
             if not (z3.is_rational_value(z3.simplify(b))):
                 a, b = E.linearise(a, b)
-            return _mk(a / b, _res_flav(fa, fb, op))
+            return _flav_hint(_mk(a / b, _res_flav(fa, fb, op)), fa, fb, osym)
         raise HarnessError(op)
 
     def __add__(self, o): return self._bin(o, 'add')
